@@ -38,15 +38,15 @@ Lemma unseal_ca_body c s p :
   unseal_ca c s p =
   let '(s', t') := run_body c (unseal_body p) s (mk_thread []) in (s', negb (aborted t')).
 Proof.
-  destruct c as [rp mk mok rok edf xp]. unfold unseal_ca, unseal_body, run_body, exec, decrypt_ok. simpl.
+  destruct c as [rp mk mres rok edf xp]. unfold unseal_ca, unseal_body, run_body, exec, decrypt_ok, main_ok. simpl.
   destruct (signer s) as [k|] eqn:Es; simpl; [reflexivity|].
   destruct (bs_eqb p rp) eqn:Ep; simpl; [|reflexivity].
-  destruct edf as [[[pe e] eok]|]; simpl.
+  destruct edf as [[[pe e] eres]|]; simpl.
   - destruct (bs_eqb p pe) eqn:Epe; simpl; [|reflexivity].
-    destruct eok; simpl; [|reflexivity].
-    destruct mok; simpl; [|reflexivity].
+    destruct (file_ok eres); simpl; [|reflexivity].
+    destruct (file_ok mres); simpl; [|reflexivity].
     destruct rok; simpl; reflexivity.
-  - destruct mok; simpl; [|reflexivity].
+  - destruct (file_ok mres); simpl; [|reflexivity].
     destruct rok; simpl; reflexivity.
 Qed.
 
@@ -81,21 +81,128 @@ Qed.
 Lemma unseal_ca_sealed_or c s p s' ok :
   unseal_ca c s p = (s', ok) ->
   signer s = None ->
-  (signer s' = None /\ ok = false) \/
+  (s' = s /\ ok = false) \/
   (signer s' = Some (main_key c) /\ ok = true /\ p = right_pass c /\ main_ok c = true /\ role_ok c = true /\
-   match ed_file c with Some (pe, _, eok) => p = pe /\ eok = true | None => True end).
+   match ed_file c with Some (pe, _, r) => p = pe /\ file_ok r = true | None => True end).
 Proof.
   unfold unseal_ca. intros H Hs. rewrite Hs in H. simpl in H.
   destruct (bs_eqb p (right_pass c)) eqn:Ep; simpl in H; [|inversion H; subst; auto].
   apply bs_eqb_eq in Ep.
-  destruct (ed_file c) as [[[pe e] eok]|] eqn:Ee.
+  destruct (ed_file c) as [[[pe e] eres]|] eqn:Ee.
   - destruct (bs_eqb p pe) eqn:Epe; simpl in H; [|inversion H; subst; auto].
     apply bs_eqb_eq in Epe.
-    destruct eok; simpl in H; [|inversion H; subst; auto].
+    destruct (file_ok eres) eqn:Er; simpl in H; [|inversion H; subst; auto].
     destruct (main_ok c); simpl in H; [|inversion H; subst; simpl; auto].
     destruct (role_ok c); simpl in H; inversion H; subst; simpl; auto 10.
   - destruct (main_ok c); simpl in H; [|inversion H; subst; simpl; auto].
     destruct (role_ok c); simpl in H; inversion H; subst; simpl; auto 10.
+Qed.
+
+(* the passphrase decrypts every configured key file and every file loads *)
+Definition all_good_pre (c : cfg) (p : bs) : bool :=
+  bs_eqb p (right_pass c) && main_ok c && role_ok c &&
+  match ed_file c with Some (pe, _, r) => bs_eqb p pe && file_ok r | None => true end.
+
+(* an unsealing attempt that returns an error leaves the state exactly as it was *)
+Lemma unseal_ca_error_unchanged c s p : snd (unseal_ca c s p) = false -> fst (unseal_ca c s p) = s.
+Proof.
+  unfold unseal_ca.
+  destruct (is_some (signer s)); simpl; [reflexivity|].
+  destruct (bs_eqb p (right_pass c)); simpl; [|reflexivity].
+  destruct (ed_file c) as [[[pe e] eres]|].
+  - destruct (bs_eqb p pe); simpl; [|reflexivity].
+    destruct (file_ok eres); simpl; [|reflexivity].
+    destruct (main_ok c); simpl; [|reflexivity].
+    destruct (role_ok c); simpl; [discriminate|reflexivity].
+  - destruct (main_ok c); simpl; [|reflexivity].
+    destruct (role_ok c); simpl; [discriminate|reflexivity].
+Qed.
+
+(* the auto-unseal path (tryAwsUnseal) hands the stored secret to unsealCA directly, without the
+   TLS / client-certificate gate of the handler: it unseals only with the passphrase of the key file *)
+Lemma auto_unseal_only_right_pass c s p :
+  signer s = None -> signer (fst (unseal_ca c s p)) <> None ->
+  snd (unseal_ca c s p) = true /\ all_good_pre c p = true /\ signer (fst (unseal_ca c s p)) = Some (main_key c).
+Proof.
+  intros Hs Hn. destruct (unseal_ca c s p) as [s' ok] eqn:E. simpl in *.
+  destruct (unseal_ca_sealed_or _ _ _ _ _ E Hs) as [[A _]|[A [B [C [D [F G]]]]]]; [subst; congruence|].
+  split; [exact B|]. split; [|exact A].
+  unfold all_good_pre. subst p. rewrite bs_eqb_refl, D, F. simpl.
+  destruct (ed_file c) as [[[pe e] r]|]; [|reflexivity]. destruct G as [G1 G2]. rewrite <- G1, bs_eqb_refl, G2. reflexivity.
+Qed.
+
+Lemma refused_unchanged c s r : snd (inject c s r) <> 200 -> fst (inject c s r) = s.
+Proof.
+  unfold inject, inject_with.
+  destruct (i_tls r); simpl; [|reflexivity].
+  destruct (i_chain r); simpl; [|reflexivity].
+  destruct (i_field r) as [p|]; [|reflexivity].
+  pose proof (unseal_ca_error_unchanged c s p) as H.
+  destruct (unseal_ca c s p) as [s' ok]. simpl in *. destruct ok; [congruence|auto].
+Qed.
+
+Lemma refused_still_sealed c s r :
+  signer s = None -> snd (inject c s r) <> 200 ->
+  signer (fst (inject c s r)) = None /\ readyz (fst (inject c s r)) = 503 /\
+  ready_sent (fst (inject c s r)) = ready_sent s /\ pubkeys (fst (inject c s r)) = pubkeys s.
+Proof.
+  intros Hs H. rewrite (refused_unchanged c s r H). unfold readyz. rewrite Hs. auto.
+Qed.
+
+(* which injections are answered 200 on a sealed server: exactly those that come over TLS with a
+   verified chain, carry the passphrase of the main file, and find every configured key file
+   decryptable with it and loadable *)
+Definition all_good (c : cfg) (p : bs) : bool := all_good_pre c p.
+
+Lemma accepted_iff c s r : signer s = None ->
+  (snd (inject c s r) = 200 <->
+   i_tls r = true /\ i_chain r = true /\ exists p, i_field r = Some p /\ all_good c p = true).
+Proof.
+  intros Hs. unfold inject, inject_with, all_good, all_good_pre.
+  destruct (i_tls r); simpl; [|split; [discriminate|intros [X _]; discriminate]].
+  destruct (i_chain r); simpl; [|split; [discriminate|intros [_ [X _]]; discriminate]].
+  destruct (i_field r) as [p|]; [|split; [discriminate|intros [_ [_ [p [X _]]]]; discriminate]].
+  unfold unseal_ca. rewrite Hs. simpl.
+  destruct (bs_eqb p (right_pass c)) eqn:Ep; simpl.
+  2:{ split; [discriminate|]. intros [_ [_ [p' [X Y]]]]. inversion X; subst p'. rewrite Ep in Y. discriminate. }
+  destruct (ed_file c) as [[[pe e] eres]|].
+  - destruct (bs_eqb p pe) eqn:Epe; simpl.
+    2:{ split; [discriminate|]. intros [_ [_ [p' [X Y]]]]. inversion X; subst p'. rewrite Ep, Epe in Y.
+        destruct (main_ok c), (role_ok c); discriminate. }
+    destruct (file_ok eres) eqn:Er; simpl.
+    2:{ split; [discriminate|]. intros [_ [_ [p' [X Y]]]]. inversion X; subst p'. rewrite Ep, Epe in Y.
+        destruct (main_ok c), (role_ok c); discriminate. }
+    destruct (main_ok c); simpl.
+    2:{ split; [discriminate|]. intros [_ [_ [p' [X Y]]]]. inversion X; subst p'. rewrite Ep in Y. discriminate. }
+    destruct (role_ok c); simpl.
+    + split; [intros _|reflexivity]. split; [reflexivity|]. split; [reflexivity|]. exists p. rewrite Ep, Epe. auto.
+    + split; [discriminate|]. intros [_ [_ [p' [X Y]]]]. inversion X; subst p'. rewrite Ep in Y. discriminate.
+  - destruct (main_ok c); simpl.
+    2:{ split; [discriminate|]. intros [_ [_ [p' [X Y]]]]. inversion X; subst p'. rewrite Ep in Y. discriminate. }
+    destruct (role_ok c); simpl.
+    + split; [intros _|reflexivity]. split; [reflexivity|]. split; [reflexivity|]. exists p. rewrite Ep. auto.
+    + split; [discriminate|]. intros [_ [_ [p' [X Y]]]]. inversion X; subst p'. rewrite Ep in Y. discriminate.
+Qed.
+
+(* before the repair a refused injection could change the state: main file holding an unusable key,
+   Ed25519 file good, right passphrase -> 400, but Ed25519Signer set and a CA certificate appended *)
+Definition old_cfg : cfg :=
+  {| right_pass := [112]; main_key := 1; main_res := FWrongType; role_ok := true;
+     ed_file := Some ([112], 2, FGood); extra_pubkeys := [] |}.
+Lemma old_refused_changes_state :
+  let r := {| i_tls := true; i_chain := true; i_field := Some [112] |} in
+  snd (inject_old old_cfg (sealed_init old_cfg) r) = 400 /\
+  ed (fst (inject_old old_cfg (sealed_init old_cfg) r)) = Some 2 /\
+  ca_ders (fst (inject_old old_cfg (sealed_init old_cfg) r)) = [2] /\
+  fst (inject old_cfg (sealed_init old_cfg) r) = sealed_init old_cfg.
+Proof. vm_compute. repeat split; reflexivity. Qed.
+
+Lemma old_refused_changes_state_refuted :
+  exists c s r, snd (inject_old c s r) <> 200 /\ fst (inject_old c s r) <> s /\ fst (inject c s r) = s.
+Proof.
+  exists old_cfg, (sealed_init old_cfg), {| i_tls := true; i_chain := true; i_field := Some [112] |}.
+  destruct old_refused_changes_state as [A [B [C D]]]. split; [rewrite A; discriminate|]. split; [|exact D].
+  intros X. rewrite X in B. discriminate.
 Qed.
 
 Lemma only_right_pass c s r s' code :
@@ -103,7 +210,7 @@ Lemma only_right_pass c s r s' code :
   i_tls r = true /\ i_chain r = true /\ i_field r = Some (right_pass c) /\ code = 200 /\
   signer s' = Some (main_key c).
 Proof.
-  unfold inject. intros H Hs Hn.
+  unfold inject, inject_with. intros H Hs Hn.
   destruct (i_tls r); simpl in H; [|inversion H; subst; congruence].
   destruct (i_chain r); simpl in H; [|inversion H; subst; congruence].
   destruct (i_field r) as [p|]; [|inversion H; subst; congruence].
@@ -115,7 +222,7 @@ Qed.
 Lemma wrong_pass_unchanged c s r p :
   i_field r = Some p -> p <> right_pass c -> fst (inject c s r) = s /\ snd (inject c s r) <> 200.
 Proof.
-  unfold inject. intros Hf Hp. rewrite Hf.
+  unfold inject, inject_with. intros Hf Hp. rewrite Hf.
   destruct (i_tls r); simpl; [|split; [reflexivity|discriminate]].
   destruct (i_chain r); simpl; [|split; [reflexivity|discriminate]].
   unfold unseal_ca. destruct (is_some (signer s)); simpl; [split; [reflexivity|discriminate]|].
@@ -125,13 +232,13 @@ Qed.
 Lemma no_chain_unchanged c s r :
   i_tls r && i_chain r = false -> fst (inject c s r) = s /\ snd (inject c s r) <> 200.
 Proof.
-  unfold inject. destruct (i_tls r); simpl; [|intros _; split; [reflexivity|discriminate]].
+  unfold inject, inject_with. destruct (i_tls r); simpl; [|intros _; split; [reflexivity|discriminate]].
   intros ->. simpl. split; [reflexivity|discriminate].
 Qed.
 
 Lemma unsealed_stays c s r : signer s <> None -> fst (inject c s r) = s /\ snd (inject c s r) <> 200.
 Proof.
-  intros Hn. unfold inject.
+  intros Hn. unfold inject, inject_with.
   destruct (i_tls r); simpl; [|split; [reflexivity|discriminate]].
   destruct (i_chain r); simpl; [|split; [reflexivity|discriminate]].
   destruct (i_field r); simpl; [|split; [reflexivity|discriminate]].
@@ -167,18 +274,18 @@ Proof.
   destruct (signer s) as [k0|] eqn:Hs; simpl; [exact HQ|].
   pose proof (Q_sealed_inv c s HQ Hs) as Hr.
   destruct (bs_eqb p (right_pass c)); simpl; [|exact HQ].
-  destruct (ed_file c) as [[[pe e] eok]|] eqn:Ee.
+  destruct (ed_file c) as [[[pe e] eres]|] eqn:Ee.
   - destruct (bs_eqb p pe); simpl; [|exact HQ].
-    destruct eok; simpl; [|exact HQ].
-    destruct (main_ok c); simpl; [|apply Q_sealed; simpl; assumption].
-    destruct (role_ok c); simpl; [|apply Q_sealed; simpl; assumption].
+    destruct (file_ok eres); simpl; [|exact HQ].
+    destruct (main_ok c); simpl; [|exact HQ].
+    destruct (role_ok c); simpl; [|exact HQ].
     split; simpl; [intros _|rewrite Hr; reflexivity].
     apply completeb_intro; simpl; auto using mem_app_r.
     + unfold add_pubkeys. simpl. apply mem_add_same.
     + rewrite Ee. split; [reflexivity|]. split; [apply mem_app_l, mem_app_r|].
       unfold add_pubkeys. simpl. apply mem_add_other, mem_add_same.
   - destruct (main_ok c); simpl; [|exact HQ].
-    destruct (role_ok c); simpl; [|apply Q_sealed; simpl; assumption].
+    destruct (role_ok c); simpl; [|exact HQ].
     split; simpl; [intros _|rewrite Hr; reflexivity].
     apply completeb_intro; simpl; auto using mem_app_r.
     + unfold add_pubkeys. simpl. destruct (ed s); apply mem_add_same.
@@ -187,7 +294,7 @@ Qed.
 
 Lemma inject_Q c s r : Q c s -> Q c (fst (inject c s r)).
 Proof.
-  intros HQ. unfold inject.
+  intros HQ. unfold inject, inject_with.
   destruct (i_tls r); simpl; [|exact HQ]. destruct (i_chain r); simpl; [|exact HQ].
   destruct (i_field r) as [p|]; [|exact HQ].
   pose proof (unseal_ca_Q c s p HQ) as H. destruct (unseal_ca c s p); exact H.
@@ -206,12 +313,12 @@ Fixpoint count200 (l : list (N * N * (bool * bool * nat * nat * nat * bool))) : 
 Lemma inject_200_iff c s r : signer s = None ->
   (snd (inject c s r) = 200 <-> signer (fst (inject c s r)) <> None).
 Proof.
-  intros Hs. unfold inject.
+  intros Hs. unfold inject, inject_with.
   destruct (i_tls r); simpl; [|split; [discriminate|congruence]].
   destruct (i_chain r); simpl; [|split; [discriminate|congruence]].
   destruct (i_field r) as [p|]; simpl; [|split; [discriminate|congruence]].
   destruct (unseal_ca c s p) as [s' ok] eqn:E. simpl.
-  destruct (unseal_ca_sealed_or _ _ _ _ _ E Hs) as [[A B]|[A [B _]]]; subst; rewrite A; split; congruence.
+  destruct (unseal_ca_sealed_or _ _ _ _ _ E Hs) as [[A B]|[A [B _]]]; subst; [rewrite Hs|rewrite A]; split; congruence.
 Qed.
 
 Lemma once_unsealed c l : forall s, signer s <> None -> count200 (inject_run c s l) = O.
@@ -290,18 +397,19 @@ Qed.
 
 Arguments onat_eqb : simpl never.
 
-Definition inj_tail (p : bs) (n : nat) : list act := skipn (12 - n) (unseal_body p ++ [AUnlock]).
+Definition inj_tail (p : bs) (n : nat) : list act := skipn (13 - n) (unseal_body p ++ [AUnlock]).
 
 Definition edca c s := match ed_file c with Some (_, e, _) => mem e (ca_ders s) = true | None => True end.
 Definition eded c s := match ed_file c with Some (_, e, _) => ed s = Some e | None => True end.
 
-(* what holds while a not-aborted unsealCA has n actions left (12 = just locked, 1 = only Unlock left);
-   NS = no request has read a non-nil signer *)
+(* what holds while a not-aborted unsealCA has n actions left (13 = just locked, 1 = only Unlock left);
+   NS = no request has read a non-nil signer.  Every action that can fail (Test, Decrypt, LoadEd,
+   CheckMain, CheckRole: 13..9 left) comes before the first assignment (SetCaEd: 8 left). *)
 Definition phase (c : cfg) (n : nat) (s : state) (NS : Prop) : Prop :=
-  (n = 12 -> Q c s)%nat /\
-  (3 <= n <= 11 -> NS)%nat /\
-  (4 <= n <= 11 -> signer s = None /\ ready_sent s = 0)%nat /\
-  (n <= 8 -> edca c s)%nat /\ (n <= 7 -> eded c s)%nat /\
+  (n = 13 -> Q c s)%nat /\
+  (3 <= n <= 12 -> NS)%nat /\
+  (4 <= n <= 12 -> signer s = None /\ ready_sent s = 0)%nat /\
+  (n <= 7 -> edca c s)%nat /\ (n <= 6 -> eded c s)%nat /\
   (n <= 5 -> role_ca s = Some (main_key c))%nat /\
   (n <= 4 -> mem (main_key c) (ca_ders s) = true)%nat /\
   (n <= 3 -> signer s = Some (main_key c))%nat /\
@@ -315,7 +423,7 @@ Definition idle (t : thread) : Prop :=
   (exists m, prog t = repeat AUse m).
 
 Definition holder_ok (c : cfg) (s : state) (NS : Prop) (t : thread) : Prop :=
-  (exists p n, (1 <= n <= 12)%nat /\ prog t = inj_tail p n /\ (if aborted t then Q c s else phase c n s NS)) \/
+  (exists p n, (1 <= n <= 13)%nat /\ prog t = inj_tail p n /\ (if aborted t then Q c s else phase c n s NS)) \/
   (exists m, prog t = AReadSigner :: AUnlock :: repeat AUse m /\ aborted t = false /\ saw t = None /\ Q c s) \/
   (exists m, prog t = AUnlock :: repeat AUse m /\ aborted t = false /\ Q c s).
 
@@ -348,11 +456,11 @@ Proof.
   intros H. destruct a; simpl; try reflexivity; try congruence.
   - destruct (is_some (signer s)); reflexivity.
   - destruct (decrypt_ok c p); reflexivity.
-  - destruct (ed_file c) as [[[? ?] [|]]|]; reflexivity.
-  - destruct (ed_file c) as [[[? ?] ?]|]; reflexivity.
-  - destruct (ed_file c) as [[[? ?] ?]|]; reflexivity.
+  - destruct (ed_file c) as [[[? ?] r]|]; [destruct (file_ok r)|]; reflexivity.
   - destruct (main_ok c); reflexivity.
   - destruct (role_ok c); reflexivity.
+  - destruct (ed_file c) as [[[? ?] ?]|]; reflexivity.
+  - destruct (ed_file c) as [[[? ?] ?]|]; reflexivity.
   - destruct (saw t); reflexivity.
 Qed.
 
@@ -442,7 +550,7 @@ Proof.
     + intros h Hh. inversion Hh. left. reflexivity.
     + intros w' Hw'. split.
       * intros j tj Ne Hj. rewrite onat_eqb_neq by congruence. eapply others_idle; eauto.
-      * rewrite onat_eqb_refl. left. exists p, 12%nat. split; [lia|]. split; [reflexivity|]. simpl. rewrite Ha.
+      * rewrite onat_eqb_refl. left. exists p, 13%nat. split; [lia|]. split; [reflexivity|]. simpl. rewrite Ha.
         pose proof (inv_free _ _ HI El). phase_split; try lia; assumption.
   - (* request about to lock *)
     unfold request_prog in Ep. simpl in Ep. inversion Ep; subst a r. clear Ep.
@@ -560,8 +668,8 @@ Proof.
   unfold step. rewrite Ei, Ep, Eh.
   destruct Hi as [[p [n [Hn [Hp Hc]]]]|[[m [Hp [Ha [Hs HQ]]]]|[m [Hp [Ha HQ]]]]]; rewrite Hp in Ep.
   - (* unsealCA *)
-    assert (Hcases : (n = 1 \/ n = 2 \/ n = 3 \/ n = 4 \/ n = 5 \/ n = 6 \/ n = 7 \/ n = 8 \/ n = 9 \/ n = 10 \/ n = 11 \/ n = 12)%nat) by lia.
-    assert (Hab : forall n', (2 <= n' <= 12)%nat -> n = n' -> aborted t = true ->
+    assert (Hcases : (n = 1 \/ n = 2 \/ n = 3 \/ n = 4 \/ n = 5 \/ n = 6 \/ n = 7 \/ n = 8 \/ n = 9 \/ n = 10 \/ n = 11 \/ n = 12 \/ n = 13)%nat) by lia.
+    assert (Hab : forall n', (2 <= n' <= 13)%nat -> n = n' -> aborted t = true ->
               Inv c {| st := st w; lock := Some i; threads := upd (threads w) i (with_prog t (inj_tail p (n' - 1))); transitions := transitions w |}).
     { intros n' Hn' -> Ea. rewrite Ea in Hc. hs HI Ei Eh.
       - intros k Hk. eapply (inv_G _ _ HI); eauto.
@@ -569,7 +677,7 @@ Proof.
       - exact Htr.
       - inj_next p (n' - 1)%nat. rewrite Ea. exact Hc. }
     unfold inj_tail, unseal_body in Ep. simpl in Ep.
-    destruct Hcases as [H|[H|[H|[H|[H|[H|[H|[H|[H|[H|[H|H]]]]]]]]]]]; subst n; simpl in Ep; inversion Ep; subst a r; clear Ep.
+    destruct Hcases as [H|[H|[H|[H|[H|[H|[H|[H|[H|[H|[H|[H|H]]]]]]]]]]]]; subst n; simpl in Ep; inversion Ep; subst a r; clear Ep.
     + (* Unlock *)
       simpl. rewrite onat_eqb_refl.
       hs HI Ei Eh.
@@ -621,37 +729,16 @@ Proof.
         -- apply edca_app; auto.
         -- apply mem_app_r.
     + (* SetRoleCa *)
-      destruct (aborted t) eqn:Ea; [apply (Hab 6%nat); auto; lia|]. simpl.
+      destruct (aborted t) eqn:Ea; [apply (Hab 6%nat); auto; lia|]. simpl. rewrite okey_eqb_refl.
       use_phase Hc. destruct Psealed as [Ps Pr].
-      destruct (role_ok c) eqn:Er; simpl; rewrite okey_eqb_refl.
-      * hs HI Ei Eh.
-        -- gme_ns PNS i t Ei.
-        -- right. exact PNS.
-        -- exact Htr.
-        -- inj_next p 5%nat. rewrite Ea.
-           phase_split; try lia; simpl; auto.
-      * hs HI Ei Eh.
-        -- gme_ns PNS i t Ei.
-        -- right. exact PNS.
-        -- exact Htr.
-        -- inj_next p 5%nat. apply Q_sealed; simpl; auto.
-    + (* CheckMain *)
-      destruct (aborted t) eqn:Ea; [apply (Hab 7%nat); auto; lia|]. simpl.
-      use_phase Hc. destruct Psealed as [Ps Pr].
-      destruct (main_ok c) eqn:Em; simpl; rewrite okey_eqb_refl.
-      * hs HI Ei Eh.
-        -- gme_ns PNS i t Ei.
-        -- right. exact PNS.
-        -- exact Htr.
-        -- inj_next p 6%nat. rewrite Ea.
-           phase_split; try lia; simpl; auto.
-      * hs HI Ei Eh.
-        -- gme_ns PNS i t Ei.
-        -- right. exact PNS.
-        -- exact Htr.
-        -- inj_next p 6%nat. apply Q_sealed; simpl; auto.
+      hs HI Ei Eh.
+      * gme_ns PNS i t Ei.
+      * right. exact PNS.
+      * exact Htr.
+      * inj_next p 5%nat. rewrite Ea.
+        phase_split; try lia; simpl; auto.
     + (* SetEd *)
-      destruct (aborted t) eqn:Ea; [apply (Hab 8%nat); auto; lia|]. simpl.
+      destruct (aborted t) eqn:Ea; [apply (Hab 7%nat); auto; lia|]. simpl.
       use_phase Hc. destruct Psealed as [Ps Pr].
       destruct (match ed_file c with Some (_, e, _) => (set_ed (st w) (Some e), t) | None => (st w, t) end) as [s' t'] eqn:Ex.
       assert (X : t' = t /\ signer s' = None /\ ready_sent s' = 0%nat /\ edca c s' /\ eded c s').
@@ -661,10 +748,10 @@ Proof.
       * gme_ns PNS i t Ei.
       * right. exact PNS.
       * rewrite X1, Htr, Ps. reflexivity.
-      * inj_next p 7%nat. rewrite Ea.
+      * inj_next p 6%nat. rewrite Ea.
         phase_split; try lia; simpl; auto.
     + (* SetCaEd *)
-      destruct (aborted t) eqn:Ea; [apply (Hab 9%nat); auto; lia|]. simpl.
+      destruct (aborted t) eqn:Ea; [apply (Hab 8%nat); auto; lia|]. simpl.
       use_phase Hc. destruct Psealed as [Ps Pr].
       destruct (match ed_file c with Some (_, e, _) => (set_ca_ders (st w) (ca_ders (st w) ++ [e]), t) | None => (st w, t) end) as [s' t'] eqn:Ex.
       assert (X : t' = t /\ signer s' = None /\ ready_sent s' = 0%nat /\ edca c s').
@@ -674,55 +761,85 @@ Proof.
       * gme_ns PNS i t Ei.
       * right. exact PNS.
       * rewrite X1, Htr, Ps. reflexivity.
-      * inj_next p 8%nat. rewrite Ea.
+      * inj_next p 7%nat. rewrite Ea.
         phase_split; try lia; simpl; auto.
-    + (* LoadEd *)
+    + (* CheckRole *)
+      destruct (aborted t) eqn:Ea; [apply (Hab 9%nat); auto; lia|]. simpl.
+      use_phase Hc. destruct Psealed as [Ps Pr].
+      destruct (role_ok c) eqn:Er; simpl; rewrite okey_eqb_refl.
+      * hs HI Ei Eh.
+        -- gme_ns PNS i t Ei.
+        -- right. exact PNS.
+        -- exact Htr.
+        -- inj_next p 8%nat. rewrite Ea.
+           phase_split; try lia; simpl; auto.
+      * hs HI Ei Eh.
+        -- gme_ns PNS i t Ei.
+        -- right. exact PNS.
+        -- exact Htr.
+        -- inj_next p 8%nat. apply Q_sealed; simpl; auto.
+    + (* CheckMain *)
       destruct (aborted t) eqn:Ea; [apply (Hab 10%nat); auto; lia|]. simpl.
       use_phase Hc. destruct Psealed as [Ps Pr].
-      destruct (match ed_file c with Some (_, _, false) => (st w, abort t) | _ => (st w, t) end) as [s' t'] eqn:Ex.
-      assert (X : s' = st w /\ (t' = t \/ t' = abort t)) by (destruct (ed_file c) as [[[? ?] [|]]|]; inversion Ex; auto).
+      destruct (main_ok c) eqn:Em; simpl; rewrite okey_eqb_refl.
+      * hs HI Ei Eh.
+        -- gme_ns PNS i t Ei.
+        -- right. exact PNS.
+        -- exact Htr.
+        -- inj_next p 9%nat. rewrite Ea.
+           phase_split; try lia; simpl; auto.
+      * hs HI Ei Eh.
+        -- gme_ns PNS i t Ei.
+        -- right. exact PNS.
+        -- exact Htr.
+        -- inj_next p 9%nat. apply Q_sealed; simpl; auto.
+    + (* LoadEd *)
+      destruct (aborted t) eqn:Ea; [apply (Hab 11%nat); auto; lia|]. simpl.
+      use_phase Hc. destruct Psealed as [Ps Pr].
+      destruct (match ed_file c with Some (_, _, r) => if file_ok r then (st w, t) else (st w, abort t) | None => (st w, t) end) as [s' t'] eqn:Ex.
+      assert (X : s' = st w /\ (t' = t \/ t' = abort t)) by (destruct (ed_file c) as [[[? ?] r0]|]; [destruct (file_ok r0)|]; inversion Ex; auto).
       destruct X as [-> X]. rewrite okey_eqb_refl.
       destruct X as [->| ->].
       * hs HI Ei Eh.
         -- gme_ns PNS i t Ei.
         -- right. exact PNS.
         -- exact Htr.
-        -- inj_next p 9%nat. rewrite Ea. phase_split; try lia; simpl; auto.
+        -- inj_next p 10%nat. rewrite Ea. phase_split; try lia; simpl; auto.
       * hs HI Ei Eh.
         -- gme_ns PNS i t Ei.
         -- right. exact PNS.
         -- exact Htr.
-        -- inj_next p 9%nat. apply Q_sealed; auto.
+        -- inj_next p 10%nat. apply Q_sealed; auto.
     + (* Decrypt *)
-      destruct (aborted t) eqn:Ea; [apply (Hab 11%nat); auto; lia|]. simpl.
+      destruct (aborted t) eqn:Ea; [apply (Hab 12%nat); auto; lia|]. simpl.
       use_phase Hc. destruct Psealed as [Ps Pr].
       destruct (decrypt_ok c p); simpl; rewrite okey_eqb_refl.
       * hs HI Ei Eh.
         -- gme_ns PNS i t Ei.
         -- right. exact PNS.
         -- exact Htr.
-        -- inj_next p 10%nat. rewrite Ea.
+        -- inj_next p 11%nat. rewrite Ea.
            phase_split; try lia; simpl; auto.
       * hs HI Ei Eh.
         -- gme_ns PNS i t Ei.
         -- right. exact PNS.
         -- exact Htr.
-        -- inj_next p 10%nat. apply Q_sealed; auto.
+        -- inj_next p 11%nat. apply Q_sealed; auto.
     + (* Test *)
-      destruct (aborted t) eqn:Ea; [apply (Hab 12%nat); auto; lia|]. simpl.
+      destruct (aborted t) eqn:Ea; [apply (Hab 13%nat); auto; lia|]. simpl.
       use_phase Hc.
       destruct (signer (st w)) as [k0|] eqn:Es; simpl; rewrite ?N.eqb_refl.
       * hs HI Ei Eh.
         -- intros k Hk. eapply (inv_G _ _ HI); eauto.
         -- left. split; reflexivity.
         -- rewrite Es; simpl; rewrite ?N.eqb_refl, Htr; reflexivity.
-        -- inj_next p 11%nat. exact P12.
+        -- inj_next p 12%nat. exact P12.
       * pose proof (nosaw_of_sealed c w HI Es) as NS.
         hs HI Ei Eh.
         -- gme_ns NS i t Ei.
         -- right. exact NS.
         -- rewrite Es; simpl; rewrite ?N.eqb_refl, Htr; reflexivity.
-        -- inj_next p 11%nat. rewrite Ea.
+        -- inj_next p 12%nat. rewrite Ea.
            pose proof (Q_sealed_inv c (st w) P12 Es).
            phase_split; try lia; simpl; auto.
   - (* request reads the signer under the lock *)
@@ -778,7 +895,7 @@ Proof.
     pose proof (inv_thr _ _ HI h t Ht) as H. rewrite El, onat_eqb_refl in H.
     destruct H as [[p [n [Hn [Hp Hc]]]]|[[m [_ [_ [_ HQ]]]]|[m [_ [_ HQ]]]]]; try solve [eapply Q_ready_le; eauto].
     destruct (aborted t); [eapply Q_ready_le; eauto|].
-    assert (Hcases : (n = 1 \/ 2 <= n <= 3 \/ 4 <= n <= 11 \/ n = 12)%nat) by lia.
+    assert (Hcases : (n = 1 \/ 2 <= n <= 3 \/ 4 <= n <= 12 \/ n = 13)%nat) by lia.
     destruct Hcases as [H|[H|[H|H]]]; use_phase Hc.
     + lia.
     + lia.
@@ -826,7 +943,7 @@ Qed.
 Lemma no_ed_file_no_ed c : ed_file c = None -> forall l s0, ed s0 = None -> ed (inject_all c s0 l) = None.
 Proof.
   intros A. induction l as [|r l IH]; intros s0 H0; simpl; [exact H0|]. apply IH.
-  unfold inject. destruct (i_tls r); simpl; [|exact H0]. destruct (i_chain r); simpl; [|exact H0].
+  unfold inject, inject_with. destruct (i_tls r); simpl; [|exact H0]. destruct (i_chain r); simpl; [|exact H0].
   destruct (i_field r) as [pp|]; [|exact H0]. unfold unseal_ca. rewrite A.
   destruct (is_some (signer s0)); simpl; [exact H0|].
   destruct (bs_eqb pp (right_pass c)); simpl; [|exact H0].
